@@ -605,7 +605,7 @@ func (s *Sim) settleControl(client string) {
 			// C11 wedge: the pipeline is reported running (memory and store agree), yet a stop
 			// is refused because there is no run, no plugin session is open, nothing is in
 			// flight - and a start is refused because the pipeline "is running"
-			if ds, _, dok := w.db.durableStatus(PipelineID); dok && ds == 1 && w.memStatus() == 1 && strings.Contains(err.Error(), "not running") &&
+			if ds, _, dok := w.db.durableStatus(PipelineID); dok && ds == 1 && w.memStatus() == 1 && strings.Contains(err.Error(), "pipeline not running") && !w.or.ctl.restartInProgress &&
 				len(w.or.openSessions(w)) == 0 && !w.or.statusWriteFailedEver && w.worldParked() == 0 && len(w.or.ctl.startInFlight()) == 0 {
 				serr := s.call(client, "start", PipelineID+" (wedge probe)", func(st *Stack) error { return st.life.Start(ctx, PipelineID) })
 				if serr != nil && strings.Contains(serr.Error(), "is running") {
